@@ -19,10 +19,15 @@ static bool takes_value(int k) { return k >= 2 && k < NOPT; }
 
 // std::stoi / std::stod contract stubs
 static int  g_stoi_val, g_stoi_ok;
+static int  g_n_stoi, g_n_stod;         // how often each conversion was asked for
+static double g_stod_vals[8];           // the reals handed out, in call order
 extern "C" {
-  int __ms_stoi(const char *, size_t, int * ok) { g_stoi_val = nondet_int(); g_stoi_ok = nondet_int(); VASSUME(g_stoi_ok >= 0 && g_stoi_ok <= 2); *ok = g_stoi_ok; return g_stoi_val; }
-  double __ms_stod(const char *, size_t, int * ok) { double v = nondet_double(); VASSUME(v > -1e6 && v < 1e6); int o = nondet_int(); VASSUME(o >= 0 && o <= 1); *ok = o; return v; }
+  int __ms_stoi(const char *, size_t, int * ok) { g_n_stoi++; g_stoi_val = nondet_int(); g_stoi_ok = nondet_int(); VASSUME(g_stoi_ok >= 0 && g_stoi_ok <= 2); *ok = g_stoi_ok; return g_stoi_val; }
+  double __ms_stod(const char *, size_t, int * ok) { double v = nondet_double(); VASSUME(v > -1e6 && v < 1e6); int o = nondet_int(); VASSUME(o >= 0 && o <= 1); *ok = o; if (g_n_stod < 8) g_stod_vals[g_n_stod] = v; g_n_stod++; return v; }
 }
+// option typing as documented (README, --help): integers -n/--nb-events -s -l -m --pgop-mdl-rank; reals -e -E -a --pgop-mdl-cone-phi/-theta/-aperture
+static bool int_option(int k) { return k == 3 || k == 4 || k == 5 || k == 8 || k == 10 || k == 16; }
+static bool real_option(int k) { return k == 11 || k == 12 || k == 13 || k == 17 || k == 18 || k == 19; }
 namespace bxdecay0 {
   // logging level decoding of the driver (driver.cpp is not part of this unit)
   driver::logging_type driver::logging_from_string(const std::string & s) { return s == "mute" ? LOGGING_MUTE : LOGGING_UNDEFINED; }
@@ -52,12 +57,16 @@ extern "C" void harness()
   int i = 0;
   int want_nuclide = -1;
   int positional = 0;
+  int want_int = 0, want_real = 0;
+  int real_opt[8];
   while (i < n) {
     int k = tok[i];
     if (k < 2) { help_first = true; break; }
     if (k < NOPT) {
       if (i + 1 >= n) { bad = true; break; }      // option without its value
       if (k == 6 || k == 7) want_nuclide = tok[i + 1];
+      if (int_option(k)) want_int++;
+      if (real_option(k)) { if (want_real < 8) real_opt[want_real] = k; want_real++; }
       i += 2;
       continue;
     }
@@ -76,5 +85,24 @@ extern "C" void harness()
     VASSERT(same && j == cfg.nuclide.size(), "C13: the nuclide option lands in the nuclide field");
   }
   if (ps == cl_parser::PS_OK) VASSERT(cfg.nb_events >= 1, "C13: an accepted command line never asks for zero events");
+  if (ps == cl_parser::PS_OK && !bad && !help_first) {
+    VASSERT(g_n_stoi == want_int && g_n_stod == want_real, "C13: every option value is converted with the type the option documents (integer / real)");
+    // the value of each real-valued option lands in its own field (last occurrence wins)
+    for (int j = 0; j < want_real && j < 8 && j < g_n_stod; j++) {
+      bool last = true;
+      for (int j2 = j + 1; j2 < want_real && j2 < 8; j2++) if (real_opt[j2] == real_opt[j]) last = false;
+      if (!last) continue;
+      double v = g_stod_vals[j], f = 0;
+      switch (real_opt[j]) {
+      case 11: f = cfg.energy_min_MeV; break;
+      case 12: f = cfg.energy_max_MeV; break;
+      case 13: f = cfg.activity_Bq; break;
+      case 17: f = cfg.mdl_config.cone_phi_degree; break;
+      case 18: f = cfg.mdl_config.cone_theta_degree; break;
+      default: f = cfg.mdl_config.cone_aperture_degree; break;
+      }
+      VASSERT(f == v, "C13: a real-valued option reaches its configuration field unchanged");
+    }
+  }
   VWITNESS();
 }
